@@ -862,6 +862,10 @@ def corpus():
                 cases.append(range_case(fe, 0, None, fname, ['0-1', '-2'], sep=sp))
                 cases.append(range_case(fe, 0, None, fname, ['0-0', '%d-' % max(n - 2, 0), '0-1'], sep=sp))
                 cases.append(range_case(fe, 0, None, fname, ['-1', '0-0'], sep=sp))
+                # sets that are unsatisfiable as a whole, written with optional whitespace: 416, not the whole file
+                cases.append(range_case(fe, 0, None, fname, ['-0', '-0'], sep=sp))
+                cases.append(range_case(fe, 0, None, fname, ['%d-' % n, '-0'], sep=sp))
+                cases.append(range_case(fe, 0, None, fname, ['%d-%d' % (n, n + 5), '%d-' % (n + 7), '-0'], sep=sp))
             cases.append(range_case(fe, 0, None, fname, ['0-1', '3-4'], sep=', '))
             cases.append(range_case(fe, 0, None, fname, ['0-1', '3-4'], sep=' ,'))
             cases.append(range_case(fe, 0, None, fname, ['0-5'], prefix='bytes '))
